@@ -1,4 +1,6 @@
 import LiquidVerif.Lemmas.UndefKind
+import LiquidVerif.Lemmas.FilterShape
+import LiquidVerif.Model.FilterRegistry
 /-!
 # C16 — strict undefined types only refine the default behaviour
 
@@ -187,6 +189,137 @@ theorem default_never_raises_undefined (g : List (String × Data)) (s : Stmt) :
 theorem default_missing_path_is_a_value (e : Env) (he : relaxEnv e = e) (p : Prim) :
     ∃ v, evalPrim .dflt e p = .ok v :=
   let ⟨v, hv, _⟩ := evalPrim_relaxed he p; ⟨v, hv⟩
+
+/-! ### Every registered filter (deepening round)
+
+`Model/FilterRegistry.lean` gives every filter registered by `Environment(extra=True)` (the list is regenerated from
+the source: `Gen.C02.FilterName`, with its decorator chain) a *shape*: which pokes the decorator and the body perform
+on an undefined left value and on each argument, and which plain value the operand stands for afterwards; the rest of
+the filter is an arbitrary computation `g` on plain data.  The theorems below hold for every `g`. -/
+
+/-- **per decorator**: a filter that converts its operands by fixed poke sequences and then computes on plain data only
+    refines — this is `string_filter`, `math_filter`, `sequence_filter`, `array_filter`, `liquid_filter` + body prologue -/
+theorem shape_filter_refines (sh : Shape) (g : Data → List Data → Res) :
+    ∀ v args r, shapeSem sh g v args = .ok r → shapeSem sh g (relax v) (args.map relax) = .ok (relax r) :=
+  shape_refines sh g
+
+/-- the whole registered filter table only refines, whatever the plain computations are -/
+theorem registered_filters_refine (g : LiquidVerif.Gen.C02.FilterName → Data → List Data → Res) :
+    Refines (registeredFilters g) := by
+  intro name v args r h
+  unfold registeredFilters at h ⊢
+  cases hn : filterByName name with
+  | none => rw [hn] at h; cases h
+  | some n =>
+    rw [hn] at h
+    simp only at h ⊢
+    split at h
+    · rw [if_pos (by assumption)]
+      match args, h with
+      | [a], h => exact fDefault_relax h
+    · rw [if_neg (by assumption)]
+      exact shape_refines _ _ _ _ _ h
+
+/-- … and never raises `UndefinedError` when every undefined operand is the default `Undefined` -/
+theorem registered_filters_quiet (g : LiquidVerif.Gen.C02.FilterName → Data → List Data → Res) :
+    QuietOnDefault (registeredFilters g) := by
+  intro name v args h
+  unfold registeredFilters at h
+  cases hn : filterByName name with
+  | none => rw [hn] at h; cases h
+  | some n =>
+    rw [hn] at h
+    simp only at h
+    split at h
+    · match args, h with
+      | [], h => cases h
+      | [a], h => cases v <;> simp [fDefault, forceDefault] at h
+      | _ :: _ :: _, h => cases h
+    · exact shape_quiet _ _ _ _ h
+
+/-- **Sentence 1 for all registered filters**: for every template of the modelled language using any of the
+    registered filters, all plain data, every undefined kind and every choice of the plain computations -/
+theorem strict_refines_default_registered (g : LiquidVerif.Gen.C02.FilterName → Data → List Data → Res) (k : Kind)
+    (data : List (String × Data)) (s : Stmt) (out : String)
+    (h : renderData (registeredFilters g) k data s = .ok out) : renderData (registeredFilters g) .dflt data s = .ok out :=
+  strict_refines_default _ (registered_filters_refine g) k data s out h
+
+/-- **Sentence 2b for all registered filters** -/
+theorem default_never_raises_undefined_registered (g : LiquidVerif.Gen.C02.FilterName → Data → List Data → Res)
+    (s : Stmt) (e : Env) (he : relaxEnv e = e) : render (registeredFilters g) .dflt e s ≠ .error .undefined :=
+  render_quiet (registered_filters_refine g) (registered_filters_quiet g) s e he
+
+/-- **Sentence 2a, filter input, for all registered filters**: every registered filter except `default` pokes an
+    undefined left value (so `StrictUndefined | f` raises by `shape_strict_input`); kernel-decided over the generated
+    filter list -/
+theorem every_registered_filter_pokes_its_input :
+    (LiquidVerif.Gen.C02.FilterName.all.filter (fun n => n.name != "default")).all
+      (fun n => !(shapeOf n).inPokes.isEmpty) = true := by decide
+
+/-- filtering a missing variable through a registered filter raises under `StrictUndefined` -/
+theorem strict_undefined_raises_registered_filter (g : LiquidVerif.Gen.C02.FilterName → Data → List Data → Res)
+    (n : LiquidVerif.Gen.C02.FilterName) (args : List Val) (hp : (shapeOf n).inPokes ≠ [])
+    (ha : ¬ args.length < (shapeOf n).minArgs) :
+    shapeSem (shapeOf n) (g n) (.undef .strict) args = .error .undefined :=
+  shape_strict_input _ _ _ hp ha
+
+/-- … and as an argument in a position whose conversion pokes it (plain input, plain arguments before it) -/
+theorem strict_undefined_raises_registered_argument (os : List Operand) (pre : List Data) (rest : List Val)
+    (o : Operand) (ho : os[pre.length]? = some o) (hp : o.pokes ≠ []) :
+    convArgs os (pre.map Val.data ++ Val.undef .strict :: rest) = .error .undefined :=
+  convArgs_strict os pre rest o ho hp
+
+/-- the reviewed list of argument positions that are **not** looked at: exactly `default`'s argument -/
+theorem untouched_argument_positions :
+    (LiquidVerif.Gen.C02.FilterName.all.filter (fun n => (argOps n).2.any (fun o => o.pokes.isEmpty))).map (·.name)
+      = ["default"] := by decide
+
+/-! ### `Mode.LAX` / `Mode.WARN` (deepening round)
+
+Under a tolerant mode `Environment.error` swallows the `UndefinedError` of a top-level node and the render goes on: a
+render "succeeds" whatever happens, so the hypothesis of sentence 1 no longer says anything and the refinement is
+**false** there; what remains true is stated after the counter-example. -/
+
+/-- top-level render in `Mode.LAX` from plain data, output only -/
+def renderLaxData (F : FilterSem) (k : Kind) (globals : List (String × Data)) (ss : List Stmt) : String :=
+  (renderLax F k { scopes := [], locals := [], globals := globals.map (fun kv => (kv.1, Val.data kv.2)) } ss).2
+
+/-- `a{{ m | append: "x" }}b` with `m` missing -/
+def laxWitness : List Stmt := [.text "a", .output ⟨.path "m" [], [⟨"append", [.lit (.str "x")]⟩]⟩, .text "b"]
+
+/-- **the refinement does not hold in `Mode.LAX`**: the default type renders `axb`, every strict type renders `ab`
+    (the node is dropped) — both renders "succeed" -/
+theorem lax_refinement_counterexample :
+    renderLaxData builtinFilters .dflt [] laxWitness = "axb" ∧
+    renderLaxData builtinFilters .strict [] laxWitness = "ab" ∧
+    renderLaxData builtinFilters .falsy [] laxWitness = "ab" ∧
+    renderLaxData builtinFilters .strictDefault [] laxWitness = "ab" := by decide
+
+/-- what holds in `Mode.LAX`, 1: when no node raises under kind `k`, the lax render is the strict-mode render, hence
+    (sentence 1) the default-kind output -/
+theorem lax_agrees_when_no_node_raises (F : FilterSem) (hF : Refines F) (k : Kind) :
+    ∀ (ss : List Stmt) (e : Env), (∀ s ∈ ss, ∀ e', (render F k e' s).isOk = true) →
+      (renderLax F k e ss).2 = (renderLax F .dflt (relaxEnv e) ss).2 ∧
+      relaxEnv (renderLax F k e ss).1 = (renderLax F .dflt (relaxEnv e) ss).1 := by
+  intro ss
+  induction ss with
+  | nil => intro e _; exact ⟨rfl, rfl⟩
+  | cons s rest ih =>
+    intro e h
+    have hs := h s List.mem_cons_self e
+    cases hr : render F k e s with
+    | error err => rw [hr] at hs; cases hs
+    | ok p =>
+      obtain ⟨e1, o1⟩ := p
+      have hd := render_relax hF s e e1 o1 hr
+      have := ih e1 (fun s' hs' => h s' (List.mem_cons_of_mem _ hs'))
+      simp only [renderLax, hr, hd, this.1, this.2, and_self]
+
+/-- what holds in `Mode.LAX`, 2: under the default type no node is ever dropped because of an `UndefinedError` — a
+    dropped node raised something else -/
+theorem lax_default_never_drops_for_undefined (s : Stmt) (e : Env) (he : relaxEnv e = e) :
+    render builtinFilters .dflt e s ≠ .error .undefined :=
+  render_quiet builtin_refines builtin_quiet s e he
 
 /-! ### Non-vacuity -/
 
